@@ -23,6 +23,8 @@
  *                               address, o = same from another address, r = forged piggy-backed 2.05 for request 1 at the
  *                               client session's socket
  *   rel=<k>|-                   the application releases the client session before the fate of datagram k (default: at the end)
+ *   icmp=<k>[x<n>]              before the fate of datagram k the client session is told n times (default 1) about an ICMP error:
+ *                               coap_session_disconnected(session, COAP_NACK_ICMP_ISSUE) — segment `icmp` each
  *   idle=0|1                    1: keep running past the server's idle timeout (300 s)
  *   bm=0|1                      1: the client context uses COAP_BLOCK_USE_LIBCOAP (coap_context_set_block_mode): requests that
  *                               need large-receive / observe tracking get an lg_crcv entry in coap_send()
@@ -560,6 +562,16 @@ static void do_release(void) {
   if (!g_cs_gone) { /* still referenced by queue nodes: the application's pointer is dead all the same */ }
   seg_close();
 }
+static long icmp_at; static int icmp_n;
+static void do_icmp(void) {
+  /* what coap_read_session() does on ECONNREFUSED / EHOSTUNREACH of a connected datagram socket */
+  for (int i = 0; i < icmp_n; i++) {
+    if (g_cs_gone || !g_cs) return;
+    seg_begin(w_cli, "icmp");
+    coap_session_disconnected(g_cs, COAP_NACK_ICMP_ISSUE);
+    seg_close();
+  }
+}
 static void do_inject(char what) {
   uint8_t b[48];
   size_t n;
@@ -618,6 +630,7 @@ static int in_pre;            /* an earlier client (pre=) is running: loss-free,
 static void before_fate(unsigned k) {
   if (in_pre) return;
   for (int i = 0; i < ninj; i++) if (!injs[i].done && injs[i].k <= k) { injs[i].done = 1; do_inject(injs[i].what); }
+  if (icmp_at >= 0 && (unsigned)icmp_at <= k) { icmp_at = -1; do_icmp(); }
   if (rel_at >= 0 && (unsigned)rel_at <= k) { rel_at = -1; do_release(); }
 }
 static void flush_net(void) {
@@ -740,7 +753,7 @@ static void step(char *line) {
   /* defaults */
   memcpy(c_id, "id", 3); c_idl = 2; memcpy(c_key, "key", 4); c_keyl = 3; memcpy(s_key, "key", 4); s_keyl = 3;
   have_hint = 0; s_hintl = 0; have_keytab = 0; nkeytab = 0; have_snitab = 0; nsnitab = 0; ih_mode = 0; nih = 0; have_sni = 0;
-  fate[0] = 0; ninj = 0; rel_at = -1; nq = 0; g_bm = 0; g_tt = 1; c_sni[0] = 0; g_burst[0] = 0; g_burst_done = 0;
+  fate[0] = 0; ninj = 0; rel_at = -1; icmp_at = -1; icmp_n = 1; nq = 0; g_bm = 0; g_tt = 1; c_sni[0] = 0; g_burst[0] = 0; g_burst_done = 0;
   for (int i = 1; i < n; i++) {
     char *k = w[i], *v = strchr(w[i], '=');
     int ok = 1;
@@ -775,6 +788,12 @@ static void step(char *line) {
       }
     }
     else if (!strcmp(k, "rel")) { if (strcmp(v, "-")) { char *end; rel_at = strtol(v, &end, 10); if (*end || rel_at < 0) ok = 0; } }
+    else if (!strcmp(k, "icmp")) {
+      char *end; icmp_at = strtol(v, &end, 10);
+      if (end == v || icmp_at < 0) ok = 0;
+      else if (*end == 'x') { icmp_n = atoi(end + 1); if (icmp_n < 1 || icmp_n > 4) ok = 0; }
+      else if (*end) ok = 0;
+    }
     else if (!strcmp(k, "idle")) idle = atoi(v);
     else if (!strcmp(k, "bm")) { if (!strcmp(v, "1")) g_bm = 1; else if (!strcmp(v, "0")) g_bm = 0; else ok = 0; }
     else if (!strcmp(k, "tt")) g_tt = atoi(v);       /* tt=0: do NOT seed session->tx_token in block mode (replay of an observation only) */
